@@ -1,7 +1,7 @@
 """C18 — asset binary: reader, flag computation, size and writer tables agree for all 51 optional fields."""
 import re
 from mir import fmt, walk, strip_refs, norm, callee_names
-from binser import rpo_index, root_of, affine, fmt_affine
+from binser import rpo_index, root_of, affine, fmt_affine, const_fold
 from flow import guards, dom_guards, control_deps, cond_truth, enum_paths, PathLimit
 
 EXPLANATION = ("Four tables are extracted from the MIR with control-dependence guards: (a) reader: field stored, flag "
@@ -24,6 +24,20 @@ def self_field(t, param=1):
         if x[0] == "field" and len(x) > 4 and x[4] == SPEC and strip_refs(x[1])[0] in ("param",):
             return x[2]
     return None
+
+
+def is_popcount(facts, name):
+    """a call that counts the set bits of a byte: the crate's helper under any name, or u8::count_ones itself"""
+    if not name:
+        return False
+    if name.endswith("count_bits") or name.endswith("::count_ones"):
+        return True
+    if getattr(facts, "renamed", {}).get(name, "").endswith("count_bits"):
+        return True
+    b = facts.raw_body(name)
+    if b is not None and b.argc == 1 and b.local_ty(1) == "u8" and b.local_ty(0) == "usize":
+        return any((callee_names(t)[1] or callee_names(t)[0] or "").endswith("::count_ones") for bb, t in b.calls()) or bool(b.loops())
+    return False
 
 
 def flag_bit_of_cond(term):
@@ -302,6 +316,35 @@ def flag_table(facts, cf):
         bit = 8 * byte + mask.bit_length() - 1
         out[pred[1]] = (pred[0], bit, s["line"])
         order.append((pred[1], byte, mask, pred, s["line"]))
+    # third form (table-driven, after unrolling): under `if self.flag { flags[B] |= 1 << k }` with constant B, k
+    for bi, si, s in cf.stmts():
+        if s["k"] != "assign" or s["lhs"]["p"] != ["deref"] or s["rv"]["k"] != "bin" or s["rv"]["op"] != "BitOr":
+            continue
+        tgt = cf.term_of_local(s["lhs"]["l"])
+        if not (tgt[0] == "call" and "index_mut" in tgt[1] and len(tgt[2]) > 1):
+            continue
+        byte = const_fold(tgt[2][1])
+        mask = const_fold(cf.term_of_operand(s["rv"]["b"]))
+        if byte is None or mask is None or mask <= 0 or mask & (mask - 1) or mask > 0x80:
+            continue
+        pred = None
+        for (a, succ, c) in dom_guards(cf, bi, cd):
+            ct = cond_truth(c)
+            if not ct:
+                continue
+            term, truth = ct
+            while term[0] == "un" and term[1] == "Not":
+                term, truth = term[2], not truth
+            f = self_field(term)
+            if f is None or not truth:
+                continue
+            if term[0] == "call" and term[1].endswith("is_some"):
+                pred = ("is_some", f)
+            elif not any(x[0] == "call" for x in walk(term)):
+                pred = ("flag", f)
+        if pred and pred[1] not in out:
+            out[pred[1]] = (pred[0], 8 * byte + mask.bit_length() - 1, s["line"])
+            order.append((pred[1], byte, mask, pred, s["line"]))
     # second form: flags[B] (|)= u8::from(self.a) | (u8::from(self.b) << 1) | ...   (booleans packed by shifts)
     from lz import bitslice, NotBits
     for bi, si, s in cf.stmts():
@@ -712,14 +755,14 @@ def form_rules(facts, rep, R2, rd, cf, ap, ftab, rrows=()):
     if marker and marker[1] == 0:
         # must come after the size computation (popcount): no count_bits call is reachable from the marker block
         mbb = marker[2]
-        cb = [bb for bb, t in cf.calls() if (callee_names(t)[1] or "").endswith("count_bits")]
+        cb = [bb for bb, t in cf.calls() if is_popcount(facts, callee_names(t)[1] or callee_names(t)[0] or "")]
         # closures handed to map/sum: the adaptor call that consumes them
         for bb, t in cf.calls():
             for a in t["args"]:
                 ta = cf.term_of_operand(a)
                 for x in walk(ta):
                     if x[0] == "agg" and x[1] == "closure" and x[2] in facts.bodies and any(
-                            (callee_names(t2)[1] or "").endswith("count_bits") for _, t2 in facts.bodies[x[2]].calls()):
+                            is_popcount(facts, callee_names(t2)[1] or callee_names(t2)[0] or "") for _, t2 in facts.bodies[x[2]].calls()):
                         cb.append(bb)
         after = cf.reachable_blocks(mbb)
         g_ok = None
@@ -752,13 +795,13 @@ def form_rules(facts, rep, R2, rd, cf, ap, ftab, rrows=()):
         if cf.local_ty(l) == "usize" and cf.local_name(l):
             ts = [cf.term_of_rvalue(d[3]["rv"]) for d in cf.defs().get(l, []) if d[2] == "assign"]
             has_base = any(affine(t, None) and affine(t, None)[1] == 4 and any(k[0] == "call" and k[1].endswith("::len") for k in affine(t, None)[0]) for t in ts)
-            has_inc = any(any(x[0] == "bin" and x[1].startswith("Mul") and x[3] == ("const", 4, "usize") and any(y[0] == "call" and y[1].endswith("count_bits") for y in walk(x[2])) for x in walk(t)) for t in ts)
+            has_inc = any(any(x[0] == "bin" and x[1].startswith("Mul") and x[3] == ("const", 4, "usize") and any(y[0] == "call" and is_popcount(facts, y[1]) for y in walk(x[2])) for x in walk(t)) for t in ts)
             if has_base and has_inc:
                 size_ok = True
             elif has_base:
                 for t in ts:
                     for x in walk(t):
-                        if x[0] == "bin" and x[1].startswith("Mul") and x[3][0] == "const" and any(y[0] == "call" and y[1].endswith("count_bits") for y in walk(x[2])):
+                        if x[0] == "bin" and x[1].startswith("Mul") and x[3][0] == "const" and any(y[0] == "call" and is_popcount(facts, y[1]) for y in walk(x[2])):
                             size_bad = "record size grows by %s per set bit" % x[3][1]
             # closed form: 4 * sum(count_bits(flag)) + 4 + len(flags)
             if len(ts) == 1:
@@ -768,7 +811,7 @@ def form_rules(facts, rep, R2, rd, cf, ap, ftab, rrows=()):
                     sums = [m for m in pl if len(m) == 1 and m[0][0] == "call" and m[0][1].rsplit("::", 1)[-1] == "sum"]
                     if lens and sums:
                         counts = any(x[0] == "agg" and x[1] == "closure" and x[2] in facts.bodies and any(
-                            (callee_names(t2)[1] or "").endswith("count_bits") for _, t2 in facts.bodies[x[2]].calls()) for x in walk(cf.term_of_local(l)))
+                            is_popcount(facts, callee_names(t2)[1] or callee_names(t2)[0] or "") for _, t2 in facts.bodies[x[2]].calls()) for x in walk(cf.term_of_local(l)))
                         if counts:
                             if (pl[()], pl[lens[0]], pl[sums[0]]) == (4, 1, 4):
                                 size_ok = True
@@ -778,12 +821,17 @@ def form_rules(facts, rep, R2, rd, cf, ap, ftab, rrows=()):
         rep.ok(R2, {"size": "len(flags) + 4 + 4 * popcount(flags)"})
     elif size_bad:
         rep.violation(R2, cf.name, "size", size_bad + "; specified len(flags) + 4 + 4 per set bit", cfw)
-    elif not any((callee_names(t)[1] or "").endswith("count_bits") for b0 in [cf] + [facts.bodies[i] for i in facts.bodies if facts.bodies[i].parent == cf.id] for _, t in b0.calls()):
+    elif not any(is_popcount(facts, callee_names(t)[1] or callee_names(t)[0] or "") for b0 in [cf] + [facts.bodies[i] for i in facts.bodies if facts.bodies[i].parent == cf.id] for _, t in b0.calls()):
         rep.violation(R2, cf.name, "size", "record size is not len(flags) + 4 + 4 per set bit: the set bits are never counted", cfw)
     else:
         rep.inconc(R2, "record size computation not recognised")
     # count_bits counts all 8 bits
     cb = facts.body("mila::asset_binary::count_bits")
+    if cb is None:
+        # the helper under another name
+        for n_, o_ in getattr(facts, "renamed", {}).items():
+            if o_.endswith("asset_binary::count_bits"):
+                cb = facts.body(n_)
     if cb is not None:
         rng = [x for bb, t in cb.calls() for x in walk(cb.term_of_operand(t["args"][0])) if t["args"] and x[0] == "agg" and x[2] and x[2].endswith("ops::Range")]
         ones = [t for bb, t in cb.calls() if (callee_names(t)[1] or callee_names(t)[0] or "").endswith("<impl u8>::count_ones")
